@@ -8,6 +8,7 @@ import random
 import re
 
 import common
+import gen_core
 import gen_full
 from common import NCPU, Report, log, seed
 
@@ -202,6 +203,9 @@ def run(tier):
             for j in range(6):
                 src = scramble(rng, gen_full.render(gen_full.gen_program(random.Random(rng.random()), max_stmts=25, inject_fail=0.3)))
                 evals.append({"src": src, "file": "s%d.star" % j})
+        elif i % 10 == 2:
+            # locals assigned on some paths only: 'referenced before assignment' must stay an error, whatever the compiler proved
+            evals = [{"src": gen_core.gen_unassigned(random.Random(rng.random())), "file": "u%d.star" % j} for j in range(40)]
         else:
             evals = [{"src": "_r = %s\n" % sn if rng.random() < 0.5 else "%s\n" % sn, "file": "e%d.star" % j} for j, sn in enumerate(gen_snippets(rng, glob, methods, per))]
         if i % 7 == 3:
